@@ -103,8 +103,24 @@ template <class R, class F> struct Ops
 {
     static void run (const char* cls, const char* id, int twin, uint64_t seed, uint64_t opseed, int nops, const int* fixedOps = 0)
     {
-        const char* t = vt_tag (F ());
         R g ((unsigned long) seed);
+        drive (g, cls, id, twin, opseed, nops, fixedOps);
+    }
+    // a USED generator re-seeded with init(seed): from there on it must be indistinguishable from a fresh generator(seed).
+    // The draws before the re-seeding are logged under <id>_pre; the tail is logged under <id> (so it can be paired with a
+    // fresh object's draws, logged as its twin).
+    static void rerun (const char* cls, const char* id, int twin, uint64_t preseed, int preops, uint64_t seed, uint64_t opseed, int nops)
+    {
+        R g ((unsigned long) preseed);
+        char pre[48]; snprintf (pre, sizeof pre, "%s_pre", id);
+        static const int mix[] = {0, 0, 0, 1, 2, 0, 10, 0, 0, 6, 0, 2, 0, 0, 0, 0, 1, 0, 0, 0, 0, 0, 0, 8, 0, 0, 0, 0, 0, 0, 0, 0, 0, 0, 0, 0, 0, 0, 0, 0};
+        drive (g, cls, pre, twin, opseed ^ 0x1234, preops, mix);
+        g.init ((unsigned long) seed);
+        drive (g, cls, id, twin, opseed, nops, 0);
+    }
+    static void drive (R& g, const char* cls, const char* id, int twin, uint64_t opseed, int nops, const int* fixedOps)
+    {
+        const char* t = vt_tag (F ());
         head (cls, id, twin, "init", t); fprintf (o, ",\"out\":0}\n");
         VtRng rng (opseed);
         static const double ranges[][2] = {{0, 1}, {-1, 1}, {-2, 3}, {5, 5}, {3, -2}, {-1e30, 1e30}, {1e-30, 2e-30},
@@ -155,6 +171,15 @@ static void objects (uint64_t seed, int episodes)
         Ops<Rand48, double>::run ("Rand48", id, 1, sd, os, n);
         snprintf (id, sizeof id, "r32_%d", ep);
         Ops<Rand32, float>::run ("Rand32", id, 0, sd, os, n);
+        Ops<Rand32, float>::run ("Rand32", id, 1, sd, os, n);
+        // re-seeded after 1..40 draws (mostly single bits) from another seed, against a fresh generator
+        int pre = 1 + (int) rng.below (40);
+        uint64_t other = rng.next () >> 32;
+        snprintf (id, sizeof id, "r48re_%d", ep);
+        Ops<Rand48, double>::rerun ("Rand48", id, 0, other, pre, sd, os, n);
+        Ops<Rand48, double>::run ("Rand48", id, 1, sd, os, n);
+        snprintf (id, sizeof id, "r32re_%d", ep);
+        Ops<Rand32, float>::rerun ("Rand32", id, 0, other, pre, sd, os, n);
         Ops<Rand32, float>::run ("Rand32", id, 1, sd, os, n);
     }
 }
